@@ -18,7 +18,8 @@ VALUES = {
 ATTR_LIKE = [b'meta', b'preamble', b'diff', b'files', b'changes', b'options', b'meta_format', b'meta_encoding',
              b'preamble_indent', b'preamble_encoding', b'preamble_mimetype', b'preamble_line_endings',
              b'diff_type', b'diff_encoding', b'diff_line_endings', b'section_id', b'subsections', b'content',
-             b'meta_section', b'preamble_section', b'diff_section', b'section_name', b'default_options']
+             b'meta_section', b'preamble_section', b'diff_section', b'section_name', b'default_options', b'parent_section',
+             b'container_section_types', b'content_section_types', b'has_content']
 _OPT_RE = re.compile(rb'([A-Za-z_-]+)=([^,\r\n]+)')
 
 
@@ -62,6 +63,14 @@ def corrupt(data, rng):
                                b'{"k": ' + b'[' * depth + b']' * depth + b'}\n',        # VALID, but deep
                                b'{"k": ' + b'{"a": ' * depth + b'1' + b'}' * depth + b'}\n'])
             return data[:m.start(1)] + str(len(deep)).encode() + data[m.end(1):m.end()] + deep + data[m.end() + int(m.group(1)):]
+    if r < 0.485:
+        # another section id on one header line: any of the 24 well-formed ids, or a near miss of a name
+        hs = [m for m in re.finditer(rb'^#(\.*)([a-z]+):', data, re.M)]
+        if hs:
+            m = hs[0] if rng.random() < 0.4 else rng.choice(hs)
+            name = rng.choice([b'diffx', b'preamble', b'meta', b'change', b'file', b'diff', b'dif', b'diffxx', b'Diffx', b'met',
+                               b'files', b'preambl', b'chang', b'x', b''])
+            return data[:m.start()] + b'#' + b'.' * rng.randrange(0, 5) + name + b':' + data[m.end():]
     if r < 0.50:
         i = rng.randrange(len(data))
         return data[:i] + bytes([rng.randrange(256)]) + data[i + 1:]
